@@ -386,14 +386,14 @@ def part_a(tier, i, n, seed, R):
                 if (idx + seed) % n != i:
                     continue
                 sc.solo_all()          # isolated outcomes are taken with logging off
-                guarded(R, lambda: run_history(sc, seq, R, idx, seen_states), {'part': 'A', 'type': sc.name, 'T': sc.T, 'v': sc.v, 'history': list(seq)}, {'A', 'type:' + sc.name}, idx)
+                guarded(R, lambda: run_history(sc, seq, R, idx, seen_states), {'part': 'A', 'type': sc.name, 'T': sc.T, 'v': sc.v, 'history': list(seq)}, {'A', 'type:' + sc.name}, idx, cpu_limit=180)
                 if L <= (2 if tier == 'quick' else 3):
                     # the same history with debug logging switched on must give the same outcomes
                     pydebug.setLogger(pydebug.Debug('all', printer=lambda msg: None))
                     try:
                         guarded(R, lambda: run_history(sc, seq, R, idx, seen_states, debug=True),
                                 {'part': 'A', 'type': sc.name, 'T': sc.T, 'v': sc.v, 'history': list(seq), 'debug': True},
-                                {'A', 'type:' + sc.name, 'debug'}, idx)
+                                {'A', 'type:' + sc.name, 'debug'}, idx, cpu_limit=180)
                     finally:
                         pydebug.setLogger(None)
                         del pydebug.scope._list[:]
